@@ -1,3 +1,4 @@
+use bit_set::BitSet;
 use rustc_hash::FxHashMap;
 
 use crate::{
@@ -47,13 +48,14 @@ pub trait DecisionNNFBuilder<'a>: TopDownBuilder<'a, BddPtr<'a>> {
     /// Returns A BDD that represents `cnf` conditioned on all
     ///     variables set in the current top model
     /// We need both of these BDDs for sound CNF caching
-    /// `cache`: a map from hashed CNFs to their compiled BDDs
+    /// `cache`: a map from hashed CNFs to their compiled BDDs; every entry carries the exact
+    /// residual formula it was computed for, because different residual formulas can share a hash
     fn topdown_h(
         &'a self,
         cnf: &Cnf,
         sat: &mut SATSolver,
         level: usize,
-        cache: &mut FxHashMap<u128, BddPtr<'a>>,
+        cache: &mut FxHashMap<u128, Vec<(BitSet, BddPtr<'a>)>>,
     ) -> BddPtr<'a> {
         // check for base case
         if level >= cnf.num_vars() || sat.is_sat() {
@@ -69,9 +71,9 @@ pub trait DecisionNNFBuilder<'a>: TopDownBuilder<'a, BddPtr<'a>> {
 
         // check cache
         let hashed = sat.cur_hash();
-        match cache.get(&hashed) {
-            None => (),
-            Some(v) => {
+        let residual = sat.cur_residual().clone();
+        if let Some(entries) = cache.get(&hashed) {
+            if let Some((_, v)) = entries.iter().find(|(key, _)| *key == residual) {
                 return *v;
             }
         }
@@ -116,7 +118,10 @@ pub trait DecisionNNFBuilder<'a>: TopDownBuilder<'a, BddPtr<'a>> {
             let bdd = BddNode::new(cur_v, low_bdd, high_bdd);
             self.get_or_insert(bdd)
         };
-        cache.insert(hashed, r);
+        let entries = cache.entry(hashed).or_default();
+        if !entries.iter().any(|(key, _)| *key == residual) {
+            entries.push((residual, r));
+        }
         r
     }
 
